@@ -847,12 +847,20 @@ def entry_is_spelled_like_an_import(ctx, rep, rule="C11.module-identity"):
             l = op_local(c.args[0])
             src = sources(g, l) if l is not None else []
             # a path that is itself the result of another CLI step (the transpiler's output name) starts from a normalised path one step earlier
-            step = [x for x in src if x.matches("mscript::transpile_command")]
-            for x in step:
-                xl = op_local(x.args[0]) if x.args else None
-                src += sources(g, xl) if xl is not None else []
+            def is_norm(x):
+                return x.callee() in normalisers or (F.fn(x.callee()) is not None and F.fn(x.callee()).path in normalisers)
+
+            def alt_ok(x, g=g):
+                # each alternative the path can come from is normalised - directly, or one CLI step earlier (the transpiler's output name)
+                if is_norm(x):
+                    return True
+                if x.matches("mscript::transpile_command"):
+                    xl = op_local(x.args[0]) if x.args else None
+                    ys = sources(g, xl) if xl is not None else []
+                    return bool(ys) and all(is_norm(y) for y in ys)
+                return False
             n += 1
-            okk = any(x.callee() in normalisers or (F.fn(x.callee()) is not None and F.fn(x.callee()).path in normalisers) for x in src)
+            okk = bool(src) and all(alt_ok(x) for x in src)
             rep.ob(rule, "the path the command line hands to %s is spelled the way imports spell theirs (no `.` components)" % mir.short(c.callee()),
                    "ok" if okk else "violated",
                    "" if okk else ("the path reaches %s as typed (from %s): `mscript execute ./main.mmm` registers the entry as `./main.mmm`, a module's `import main` names `main.mmm`, "
